@@ -12,6 +12,8 @@ SHARD = 200
 MAXLEN = {"quick": 6, "thorough": 8, "search": 7}
 RULE = ("every front/on/behind sign sequence of length 0..6 (quick) / 0..8 (thorough) x open/closed on an exact plane "
         "(axis-aligned or 22-bit dyadic normal, half-integer offsets, power-of-two scale) with distinct vertices, "
+        "vertices 1..5 rounding steps off an axis plane next to the run (108 patterns x open/closed), integer-dtype "
+        "vertex arrays, scales 2^-30..2^30 also in quick, "
         "plus seeded random polylines (<= 30 vertices, rational unit normals, repeated vertices, wrapped runs) and "
         "single-segment calls of intersect_segment_with_plane (in range, out of range, parallel, degenerate); "
         "non-trivial = the call returned a polyline; distinct by hash of inputs")
@@ -93,19 +95,64 @@ def _exact_polyline(rng, signs, scale, repeat=False):
     return ref, nrm, vs
 
 
-def gen_cases(rng, n, tier):
+NEAR_PATTERNS = ["FFbB", "BFFb", "BfFF", "BBfFB", "bFFb", "FfB", "BFfB", "bfb", "BfB", "FbF", "OFb", "bFO", "FFb", "bFF",
+                 "fb", "bf", "FbbB", "BbF"]
+
+
+def _steps(x, k, up):
+    for _ in range(k):
+        x = float(np.nextafter(x, np.inf if up else -np.inf))
+    return x
+
+
+def _near_plane_cases(rng, tier):
+    """Axis-aligned planes; vertices next to the run that are 1..5 rounding steps off the plane (their side is still
+    exact: the subtraction x - ref is exact). The crossing parameter then rounds to exactly 0.0 or 1.0."""
     cases = []
+    for pat in NEAR_PATTERNS:
+        for closed in (False, True):
+            for k in (1, 2, 5):
+                ax = rng.randrange(3)
+                sg = rng.choice([1.0, -1.0])
+                scale = 2.0 ** rng.randint(-30, 30)
+                r = rng.choice([0.5, 1.0, -1.5, 3.0, -0.75, 0.0 if rng.random() < 0.3 else 2.0]) * scale
+                nrm = [0.0, 0.0, 0.0]
+                nrm[ax] = sg
+                ref = [x * scale for x in grid_vec(rng, -4, 4, 2)]
+                ref[ax] = r
+                vs = []
+                for i, ch in enumerate(pat):
+                    far = rng.choice([1.0, 1.5, 2.5]) * scale
+                    if ch == "F":
+                        x = r + sg * far
+                    elif ch == "B":
+                        x = r - sg * far
+                    elif ch == "O":
+                        x = r
+                    else:
+                        x = _steps(r, k, up=((ch == "f") == (sg > 0)))
+                    p = [(i + 0.5) * scale, rng.randint(-4, 4) / 2 * scale, rng.randint(-4, 4) / 2 * scale]
+                    p[ax] = x
+                    # keep the three coordinates distinct roles: index runs along another axis
+                    vs.append(p)
+                cases.append({"kind": "near_plane", "exact": True, "closed": closed, "ref": ref, "normal": nrm, "v": vs})
+    return cases
+
+
+def gen_cases(rng, n, tier):
+    cases = _near_plane_cases(rng, tier)
     if tier != "search" or True:
         for k in range(0, MAXLEN[tier] + 1):
             for signs in itertools.product((-1, 0, 1), repeat=k):
                 for closed in (False, True):
-                    scale = 2.0 ** rng.randint(-10, 10) if tier != "thorough" else 2.0 ** rng.randint(-30, 30)
+                    wide = tier == "thorough" or rng.random() < 0.15
+                    scale = 2.0 ** rng.randint(-30, 30) if wide else 2.0 ** rng.randint(-10, 10)
                     ref, nrm, vs = _exact_polyline(rng, signs, scale)
                     cases.append({"kind": "signs_closed" if closed else "signs_open", "exact": True, "closed": closed,
                                   "ref": ref, "normal": nrm, "v": vs})
     for i in range(n):
         u = rng.random()
-        scale = 2.0 ** rng.randint(-10, 10) if tier != "thorough" else 2.0 ** rng.randint(-30, 30)
+        scale = 2.0 ** rng.randint(-30, 30) if (tier == "thorough" or rng.random() < 0.15) else 2.0 ** rng.randint(-10, 10)
         closed = rng.random() < 0.5
         if u < 0.35:
             # long exact polylines, mostly with one run (possibly wrapped), sometimes two
@@ -128,6 +175,20 @@ def gen_cases(rng, n, tier):
                 signs[rng.randrange(k)] = rng.choice([-1, 0])
             ref, nrm, vs = _exact_polyline(rng, signs, scale)
             cases.append({"kind": mode, "exact": True, "closed": closed, "ref": ref, "normal": nrm, "v": vs})
+            if rng.random() < 0.5:
+                # the same kind of input as integer arrays (axis plane, integer coordinates)
+                ax = rng.randrange(3)
+                nrm = [0.0, 0.0, 0.0]
+                nrm[ax] = rng.choice([1.0, -1.0])
+                ref = [float(rng.randint(-3, 3)) for _ in range(3)]
+                k = rng.randint(2, 9)
+                vs = []
+                for j in range(k):
+                    pt = [float(j), float(rng.randint(-3, 3)), float(rng.randint(-3, 3))]
+                    pt[ax], pt[(ax + 1) % 3] = float(rng.randint(-3, 3)), float(j)
+                    vs.append(pt)
+                cases.append({"kind": "int_dtype", "exact": True, "closed": closed, "ref": ref, "normal": nrm, "v": vs,
+                              "int": True})
         elif u < 0.75:
             # generic plane (rational unit normal, not exact in binary64), grid vertices
             nrm = np.array([float(x) for x in rational_unit_normal(rng)])
@@ -166,12 +227,20 @@ def run_impl(c):
                                                  np.array(c["normal"]))
             return {"row": r.tolist()}
         pl = Plane(np.array(c["ref"]), np.array(c["normal"]))
-        v = np.array(c["v"], dtype=np.float64).reshape(-1, 3)
+        v = np.array(c["v"], dtype=np.int64 if c.get("int") else np.float64).reshape(-1, 3)
         before = v.copy()
         p = Polyline(v, is_closed=c["closed"])
-        r = p.sliced_by_plane(pl)
-        return {"v": r.v.tolist(), "is_closed": bool(r.is_closed), "ref": pl.reference_point.tolist(),
-                "normal": pl.normal.tolist(), "args_unchanged": bool(np.array_equal(before, v)) and bool(np.array_equal(p.v, before))}
+        with np.errstate(all="ignore"):
+            r = p.sliced_by_plane(pl)
+            # the same object asked again must answer the same (no state carried between calls)
+            try:
+                r2 = p.sliced_by_plane(pl)
+                again = bool(np.array_equal(r.v, r2.v, equal_nan=True)) and r2.is_closed == r.is_closed
+            except Exception:
+                again = False
+        return {"v": np.asarray(r.v, dtype=np.float64).tolist(), "is_closed": bool(r.is_closed), "ref": pl.reference_point.tolist(),
+                "normal": pl.normal.tolist(), "second_call_same": again,
+                "args_unchanged": bool(np.array_equal(before, v)) and bool(np.array_equal(p.v, before))}
 
     return call_impl(go)
 
@@ -261,6 +330,8 @@ def oracle(c, o):
         return "result is a closed polyline"
     if not o["args_unchanged"]:
         return "input vertices were modified"
+    if not o["second_call_same"]:
+        return "a second call on the same polyline gave a different answer"
     rows = o["v"]
     if len(rows) != len(pts):
         return "result has %d vertices, the run in front with its extensions has %d" % (len(rows), len(pts))
